@@ -12,6 +12,19 @@ LEVEL = "proof"
 PANIC_BIT = 1 << 40
 ENV = {"RUST_MIN_STACK": "262144"}
 MASK62 = (1 << 62) - 1
+SPEC_BUDGET = 5      # reported spec violations of scheduled pool runs (own budget: never crowded out)
+SPEC_BUDGET_Q = 3    # ... of queue operation sequences
+SPEC_BUDGET_X = 4    # ... of enumerated schedules
+CORR_BUDGET = 3      # reported model-only disagreements per stage
+
+
+def what_fails(end):
+    if end.startswith("DEADLOCK"):
+        return ("the real pool deadlocks on this schedule: every thread is blocked (lost wake-up), a join / drop is pending "
+                "although every job body returned")
+    if end.startswith("PANIC"):
+        return "the real pool panics on this schedule: " + end
+    return "pool run violates: each job once / join gets its own result / ownership returns / no deadlock / drop terminates"
 
 
 def hmix(h, x):
@@ -242,6 +255,7 @@ def explore(run, impl_exe, model, thorough):
     model's own count.  Configurations with a cap are samples (first `cap` schedules below every prefix)."""
     total, bad, details = 0, 0, []
     all_complete = True
+    budgets = {"spec": SPEC_BUDGET_X, "corr": CORR_BUDGET}
     import time
     t_explore = time.time()
     for (w, script, budget, red, depth, cap) in explore_configs(thorough):
@@ -268,7 +282,36 @@ def explore(run, impl_exe, model, thorough):
                 d += 1
         run.rng.shuffle(pref)
         nsched, nbad, okc, ndup = 0, 0, True, 0
+        reported_here = 0
+        keep = (not cap) and 0 <= nwant <= 50000      # small space: keep the schedules to name one side's extra schedule
+        impl_scheds = set()
         chunk = 1024
+
+        def report_schedule(s, e):
+            """one enumerated schedule on which implementation and model differ, or which ends badly: run it in full;
+            a run of the real pool that violates the property is a spec violation with the schedule as failing input"""
+            full = vlib.run_lines(impl_exe, ["P %s x %s" % (base, s)], shards=1, env=ENV)[0]
+            dd = parse_line(full)
+            actual = " ".join(dd["sched"]) if dd else s
+            mfull = vlib.run_lines(model, ["P %s x %s" % (base, actual)], shards=1)[0]
+            sp = vlib.run_lines(model, ["S P %s %s" % (base, full)], shards=1)[0]
+            end = dd["end"] if dd else "?"
+            case = {"kind": "exhaustive", "workers": w, "script": script, "sched": "x " + actual, "end": end}
+            ob = observational(case, dd) if dd else None
+            if sp != "OK" or ob is not None:
+                if budgets["spec"] > 0:
+                    budgets["spec"] -= 1
+                    run.report("spec-violation", case, {"impl": full, "model": mfull, "spec": sp if sp != "OK" else ob},
+                               what=what_fails(end) + " (enumerated schedule)")
+                    return 1
+            elif budgets["corr"] > 0:
+                budgets["corr"] -= 1
+                run.report("correspondence", case, {"impl": full, "model": mfull, "spec": sp},
+                           broken="correspondence Pool.v vs worker_pool.rs on an enumerated schedule: the model %s"
+                                  % ("does not have this schedule" if "NOTENABLED" in mfull else "observes something else"), found_input=False)
+                return 1
+            return 0
+
         for c0 in range(0, len(pref), chunk):
             reqs = ["E %s %d %d %d %s" % (base, budget, cap if cap else 2000000000, red, p) for p in pref[c0:c0 + chunk]]
             ans = vlib.run_lines(impl_exe, reqs, env=ENV, timeout=3000)
@@ -284,30 +327,43 @@ def explore(run, impl_exe, model, thorough):
                 traces += f[3:]
             scheds = [t.split("#")[0] for t in traces]
             ndup += len(scheds) - len(set(scheds))
+            if keep:
+                impl_scheds.update(scheds)
             mh = vlib.run_lines(model, ["PH %s x %s" % (base, s) for s in scheds])
+            badl = []
             for t, m in zip(traces, mh):
                 s, h, e = t.split("#")
                 if m != "%s#%s" % (h, e) or e != "ok":
                     nbad += 1
-                    if nbad <= 3:
-                        full = vlib.run_lines(impl_exe, ["P %s x %s" % (base, s)], shards=1, env=ENV)[0]
-                        mfull = vlib.run_lines(model, ["P %s x %s" % (base, s)], shards=1)[0]
-                        sp = vlib.run_lines(model, ["S P %s %s" % (base, full)], shards=1)[0]
-                        case = {"kind": "exhaustive", "workers": w, "script": script, "sched": "x " + s}
-                        if sp != "OK":
-                            run.report("spec-violation", case, {"impl": full, "model": mfull, "spec": sp},
-                                       what="pool run violates the run-summary spec on an enumerated schedule")
-                        else:
-                            run.report("correspondence", case, {"impl": full, "model": mfull, "spec": sp},
-                                       broken="correspondence Pool.v vs worker_pool.rs on an enumerated schedule", found_input=False)
+                    badl.append((0 if e.startswith("DEADLOCK") else 1 if e.startswith("PANIC") else 2, len(s), s, e))
+            # runs of the real pool that end in a deadlock / panic first, shortest first; then a few of the others
+            badl.sort()
+            looked = 0
+            for (cls, _, s, e) in badl:
+                if cls < 2 and budgets["spec"] <= 0:
+                    continue
+                if cls == 2 and (looked >= 3 or (budgets["corr"] <= 0 and looked >= 1)):
+                    continue
+                if cls == 2:
+                    looked += 1
+                reported_here += report_schedule(s, e)
             nsched += len(scheds)
-            if nbad > 20:
+            if nbad > 5000:
                 okc = False
                 break
         complete = okc and ndup == 0 and nbad == 0 and (cap or nsched == nwant)
-        if not complete and nbad == 0:
+        if not complete and keep and nsched != nwant:
+            # name a schedule that only one side has
+            ms = set(vlib.run_lines(model, ["X %s %d %d 100000" % (base, budget, red)], shards=1)[0].split(";"))
+            only_model = sorted(ms - impl_scheds, key=len)
+            only_impl = sorted(impl_scheds - ms, key=len)
+            run.note("%dw %s: %d schedules only in the implementation (e.g. `%s`), %d only in the model (e.g. `%s`)" % (
+                w, script, len(only_impl), only_impl[0] if only_impl else "", len(only_model), only_model[0] if only_model else ""))
+            for s in only_impl[:1] + only_model[:1]:
+                reported_here += report_schedule(s, "?")
+        if not complete and reported_here == 0:
             run.report("correspondence", {"kind": "exhaustive", "workers": w, "script": script, "budget": budget, "reduced": red},
-                       {"impl_traces": nsched, "duplicates": ndup, "model_traces": nwant, "details": details[-3:]},
+                       {"impl_traces": nsched, "duplicates": ndup, "bad": nbad, "model_traces": nwant, "details": details[-3:]},
                        broken="set of schedules of the implementation differs from the model's (enabledness differs)", found_input=False)
         total += nsched
         bad += nbad
@@ -368,19 +424,23 @@ def check(run):
     qs = vlib.run_lines(model, ["S %s = %s" % (c, a) for c, a in zip(qc, qi)])
     nq_bad = 0
     qdistinct = set()
+    q_spec, q_corr = [], []
     for c, a, m, s in zip(qc, qi, qm, qs):
         if "r" in c and "o" in c:
             qdistinct.add(c)
         if s != "OK":
             nq_bad += 1
-            if nq_bad <= 3:
-                run.report("spec-violation", {"kind": "queue", "request": c}, {"impl": a, "model": m, "spec": s},
-                           what="FixedQueue is not a bounded FIFO with first-match remove on this operation sequence")
+            q_spec.append((c, a, m, s))
         elif a != m:
             nq_bad += 1
-            if nq_bad <= 3:
-                run.report("correspondence", {"kind": "queue", "request": c}, {"impl": a, "model": m, "spec": s},
-                           broken="correspondence Pool.v (FixedQueue) vs fixed_queue.rs", found_input=False)
+            q_corr.append((c, a, m, s))
+    # violations of the property itself first (shortest sequences first), with a budget of their own
+    for c, a, m, s in sorted(q_spec, key=lambda x: len(x[0]))[:SPEC_BUDGET_Q]:
+        run.report("spec-violation", {"kind": "queue", "request": c}, {"impl": a, "model": m, "spec": s},
+                   what="FixedQueue is not a bounded FIFO with first-match remove on this operation sequence")
+    for c, a, m, s in sorted(q_corr, key=lambda x: len(x[0]))[:CORR_BUDGET]:
+        run.report("correspondence", {"kind": "queue", "request": c}, {"impl": a, "model": m, "spec": s},
+                   broken="correspondence Pool.v (FixedQueue) vs fixed_queue.rs", found_input=False)
     run.note("FixedQueue: %d operation sequences, %d failures" % (len(qc), nq_bad))
     # ---- pool under PRNG / biased schedules
     pcs = pool_cases(run.rng, thorough)
@@ -393,6 +453,7 @@ def check(run):
     nontriv = set()
     ends, kinds, pols, wk = {}, {}, {}, {}
     samples = []
+    p_spec, p_corr = [], []
     for c, a, d, m, s in zip(pcs, pi, parsed, pm, ps):
         kinds[c["kind"]] = kinds.get(c["kind"], 0) + 1
         pols[c["sched"].split()[0]] = pols.get(c["sched"].split()[0], 0) + 1
@@ -404,27 +465,37 @@ def check(run):
         ends[d["end"].split("(")[0]] = ends.get(d["end"].split("(")[0], 0) + 1
         inq = c["kind"] in ("batch", "earlydrop")
         obs = observational(c, d) if inq else None
-        fails = inq and (s != "OK" or obs is not None)
-        if fails:
+        cc = dict(c)
+        cc["sched"] = "x " + " ".join(d["sched"])
+        cc["end"] = d["end"]
+        if inq and (s != "OK" or obs is not None):
+            # the real pool itself breaks the property on this schedule (deadlock = every thread blocked with a join /
+            # drop pending although every job body returned; panic; wrong value; job run twice; ownership not returned)
             np_bad += 1
-            if np_bad <= 5:
-                cc = dict(c)
-                cc["sched"] = "x " + " ".join(d["sched"])
-                run.report("spec-violation", cc, {"impl": a, "model": m, "spec": s if s != "OK" else obs},
-                           what="pool run violates: each job once / join gets its own result / ownership returns / no deadlock / drop terminates")
+            p_spec.append((cc, a, m, s if s != "OK" else obs))
         elif canon(a) != canon(m):
             np_bad += 1
-            if np_bad <= 5:
-                cc = dict(c)
-                cc["sched"] = "x " + " ".join(d["sched"])
-                run.report("correspondence", cc, {"impl": a, "model": m, "spec": s},
-                           broken="correspondence Pool.v vs worker_pool.rs: observation sequences differ on this schedule", found_input=False)
+            p_corr.append((cc, a, m, s))
         sw, waited = stats_of(d, cov)
         if sw >= 3 and waited:
             nontriv.add((c["workers"], c["script"], " ".join(d["sched"])))
         if len(samples) < 3 and sw >= 5:
             samples.append({"workers": c["workers"], "script": c["script"], "schedule": " ".join(d["sched"][:60]), "end": d["end"]})
-    run.note("pool: %d scheduled runs, %d failures; ends %s" % (len(pcs), np_bad, ends))
+    # spec violations first (deadlocks and panics before the rest, shortest scenario first): the schedule is the failing input
+    def sev(x):
+        e = x[0]["end"]
+        return (0 if e.startswith("DEADLOCK") else 1 if e.startswith("PANIC") else 2, len(x[0]["script"]) + len(x[0]["sched"]))
+    for cc, a, m, s in sorted(p_spec, key=sev)[:SPEC_BUDGET]:
+        run.report("spec-violation", cc, {"impl": a, "model": m, "spec": s}, what=what_fails(cc["end"]))
+    def inq_first(x):
+        return (0 if x[0]["kind"] in ("batch", "earlydrop") else 1,) + sev(x)
+    for cc, a, m, s in sorted(p_corr, key=inq_first)[:CORR_BUDGET]:
+        note = ("the run itself satisfies the property" if cc["kind"] in ("batch", "earlydrop") else
+                "scenario outside the property's quantifier (%s): only the model's faithfulness is at stake" % cc["kind"])
+        run.report("correspondence", cc, {"impl": a, "model": m, "spec": s},
+                   broken="correspondence Pool.v vs worker_pool.rs: observation sequences differ on this schedule (%s)" % note,
+                   found_input=False)
+    run.note("pool: %d scheduled runs, %d failures (%d violate the property, %d differ from the model only); ends %s" % (len(pcs), np_bad, len(p_spec), len(p_corr), ends))
     # ---- release build (wrapping arithmetic, no debug assertions): same queue sequences and a sample of the pool runs
     nrel = 0
     if thorough:
